@@ -1030,7 +1030,9 @@ class SVG:
         for el in self.svg_root.getiterator("*"):
             attr_to_rm = []
             ns, _ = splitns(el.tag)
-            if ns not in good_ns:
+            # an element in no namespace at all (<foo xmlns="">) is not svg either; no
+            # namespace is only fine for attributes
+            if ns is None or ns not in good_ns:
                 el_to_rm.append(el)
                 continue
             for attr in el.attrib:
